@@ -19,7 +19,7 @@
 (*   <<"parse", outcome, all>>                read_struct_file(text)       *)
 (*   <<"reparse", outcome, all>>              once more; new objects       *)
 (*   <<"copy", obj, outcome, all>>            copy.deepcopy(obj)           *)
-(*   <<"update", obj, kwargs, outcome, all>>  update_default_values(**kw)  *)
+(*   <<"update", obj, kwargs, outcome, all>>  update_default_values, kw   *)
 (*   <<"pack", obj, outcome, all>>            outcome <<"ok", bytes>>      *)
 (*   <<"getitem", obj, name, outcome, all>>   outcome <<"ok", field>>      *)
 (*   <<"contains", obj, name, <<0 or 1>>, all>>                            *)
